@@ -169,12 +169,14 @@ Definition encode (x : fl) : Z :=
 Definition fl_eqb (a b : fl) : bool := encode a =? encode b.   (* bitwise identity (all NaNs alike) *)
 
 (* -- math.frexp / math.floor / math.ldexp as used by relabeling.range_around_float(x, i), for a
-   finite x >= 0:  m, e = frexp(x); mf = floor(ldexp(m, 53 - i)); exp = e + i - 53;
+   finite x >= 0:  m, e = frexp(x); if e < -1021: m, e = ldexp(x, 1021), -1021;
+   mf = floor(ldexp(m, 53 - i)); exp = e + i - 53;
    returns (ldexp(mf, exp), ldexp(mf + 1, exp)); None stands for ldexp's OverflowError. *)
 Definition range_around (u i : Z) : option (fl * fl) :=
   if u =? 0 then Some (fzero, round_p2 false (Z.shiftl 1 (i + 1021)) 0)       (* frexp(0) = (0, 0) *)
   else
-    let t := Z.log2 u + i - 52 in              (* exp + 1074 *)
+    (* subnormal x (frexp exponent < -1021, i.e. u < 2^52) is treated as having exponent -1021: exp = i - 1074 *)
+    let t := if u <? P52 then i else Z.log2 u + i - 52 in              (* exp + 1074 *)
     if 0 <=? t then
       let mf := Z.shiftr u t in
       let hi := round_p2 false (Z.shiftl (mf + 1) t) 0 in
